@@ -17,6 +17,7 @@ def main():
     a = ap.parse_args()
     seed = int(os.environ.get("VERIF_SEED", "0") or 0)
     prop = a.prop.upper()
+    common.CURRENT_PROP = prop
     ctx = common.Ctx(prop, a.tier if a.tier in ("quick", "thorough") else "quick", seed)
     mod = importlib.import_module("checks." + prop.lower())
     if a.replay:
